@@ -7,6 +7,7 @@ pub mod gen;
 pub mod json;
 pub mod kytea;
 pub mod mirror;
+pub mod norm;
 pub mod oracle;
 pub mod rng;
 pub mod text;
